@@ -14,7 +14,7 @@ from ..cfg import cfg_of
 from ..core import AnalysisError
 from ..facts import loc
 from ..packs import tables
-from ..src import Repo, call_name, strip_doc_and_logging, walk_no_nested
+from ..src import Repo, call_name, deep_strip, walk_no_nested
 
 SCANS = (("GeckoAsyncFacade", "_scan_outputs"), ("GeckoFacade", "scan_outputs"))
 UNORDERED = {"set", "frozenset", "sorted", "reversed"}
@@ -134,9 +134,8 @@ def check(ctx):
     if all(scans):
         norm = []
         for fi in scans:
-            body = strip_doc_and_logging(fi.node.body)
-            body = [s for s in body if not isinstance(s, ast.Assert)]
-            norm.append("\n".join(ast.unparse(s) for s in body).replace("_LOGGER", "logger"))
+            body = deep_strip(fi.node.body)
+            norm.append("\n".join(ast.unparse(s) for s in body))
         ctx.ob("R2", "scan-siblings-agree", norm[0] == norm[1],
                f"{scans[0].qual} and {scans[1].qual} differ after normalisation: " + _first_diff(norm[0], norm[1]), scans[1].loc)
 
